@@ -46,7 +46,7 @@ ASSUMPTIONS = [
 FEAT = gen.Feat(inherit=True, items=True, uncached=True, objrefs=True, shadow=False, max_top=3, max_child=2,
                 max_cells=3, max_rank=4, depth=2, tick=False, allow_none=True, uncached_p=3)
 
-DOC_TEXTS = ["plain doc", "two\nlines", "with \"double\" quotes", "ends with a quote\"", "back\\slash and \\n",
+DOC_TEXTS = ["plain doc", "two\nlines", "carriage\rreturn and\r\nCRLF", "", "with \"double\" quotes", "ends with a quote\"", "back\\slash and \\n",
              "unicode é中\U0001F600", "'single'", "tab\there", "  leading and trailing  ", "triple \"\"\" inside"]
 PY_VALUES = ["float('nan')", "float('inf')", "-float('inf')", "-0.0", "1e22", "1.5", "-7", "2**70", "True", "False", "None",
              "'a\\nb\\t\\x01'", "'\\U0001F600 \\u00e9'", "''", "'quote\"s'", "[1, 2, {'a': (3, 4)}]", "{'k': [1.5, None]}",
